@@ -122,8 +122,10 @@ def parseSplitRun (nc : Nat) (fs : FS) (j : Json) : Option SplitRunSpec := do
   let big := bigDemand nc fs s
   pure ⟨s, outer, branch, bufsize, take.getD (big * big + 1), fin == "leak"⟩
 
-def splitObs (patched : Bool) (nc : Nat) (w : World) (r : SplitRunSpec) : World × Json :=
-  let (w', d) := runSplitOp patched w r
+def splitObs (patched bare : Bool) (nc : Nat) (w : World) (r : SplitRunSpec) : World × Json :=
+  let (w', d) := match bare, r.branch with
+    | true, .cache c rc :: _ => runSplitBareOp patched w r c rc      -- Split([Cache(..)])
+    | _, _ => runSplitOp patched w r
   (w', Json.mkObj [
     ("out", ofIntList (d.outs.map (·.1))),
     ("end", Json.str (endName d.end_)),
@@ -135,7 +137,7 @@ def stepObs (patched : Bool) (nb V nc : Nat) (w : World) (j : Json) : Option (Wo
   match str? (getD j "op") with
   | some "splitrun" => do
     let r ← parseSplitRun nc w.fs j
-    pure (splitObs patched nc w r)
+    pure (splitObs patched ((bool? (getD j "bare")).getD false) nc w r)
   | some "run" => do
     let r ← parseRun nb V nc w.fs j
     pure (runObs nc w r)
